@@ -214,7 +214,10 @@ def write_evidence(prop, tier, ctx, findings, known_hits, wall, explanation,
     d = VERIF / 'evidence'
     d.mkdir(exist_ok=True)
     seed = int(os.environ.get('VERIF_SEED', '0') or 0)
-    cov = dict(explanation=explanation or 'static analysis', trusted_base=list(trusted))
+    cov = dict(explanation=(explanation or 'static analysis') +
+               " (The complete list of rules evaluated in this run - including the premises shared with other properties and the "
+               "clauses added while testing against independently written changes - is under coverage.rules, one description each.)",
+               trusted_base=list(trusted))
     if ctx is not None:
         insts = ctx.instances
         distinct = {(i['rule'], i['file'], i['function'], i['construct'])
